@@ -116,6 +116,8 @@ def supported(meta):
     """documented-supported layouts (conservative): plain operators, ordinary statement contexts, and no two
     lambdas starting on the same physical line with the same operator and the same parameter name"""
     shape, ctx = meta[0], meta[1]
+    if shape.startswith("closure:"):
+        return ctx in ("module", "def", "method")
     if shape.startswith("named:"):
         # functions defined with def and passed by name are a documented way to supply the callable
         parts = shape.split(":")
@@ -169,6 +171,8 @@ class C03(Check):
                                                 "lambda bound to a name"], "calls": ["one", "two", "mixed with an inline lambda",
                                                                                     "two statements"]},
                   layouts.enumerate_named_functions, runner="run_lay"),
+            Space("closure-reuse", {"shapes": ["loop", "helper called twice", "list comprehension", "default argument", "two sites"]},
+                  layouts.enumerate_closure_reuse, runner="run_lay"),
             Space("three-calls", {"ops": layouts.OPS[:3] if Q else layouts.OPS, "params": layouts.PARAMS},
                   (lambda: layouts.enumerate_three_calls(layouts.OPS[:3] if Q else layouts.OPS, layouts.PARAMS,
                                                          ("module", "def", "oneline-def", "oneline-def1", "method"))), runner="run_lay"),
